@@ -23,6 +23,7 @@ echo "== demo with change: $DEMO" | tee -a $LOG
 echo "== demo without change" | tee -a $LOG
 (cd $WT && git apply -R $OUT/patch.diff && timeout 1800 bash -c "$DEMO") >> $LOG 2>&1; echo "demo rc without change: $?" | tee -a $LOG
 (cd $WT && git apply $OUT/patch.diff) >> $LOG 2>&1 || echo "REAPPLY FAILED" | tee -a $LOG
+[ -n "${SKIP_CHECKS:-}" ] && CHECKS=""
 for c in $CHECKS; do
   echo "== check $c quick against the change" | tee -a $LOG
   (cd /verif && VERIF_REPO=$WT ./check $c quick 2>&1 | cut -c1-300 | grep -a -E "^(VIOLATION|OK |INCONCLUSIVE|violation detail)" | sort -r | head -8) | tee -a $LOG
